@@ -2266,6 +2266,17 @@ func (interp *Interpreter) cfg(root *node, sc *scope, importPath, pkgName string
 							setFNext(cond, clauses[i+1].start)
 						}
 						c.start = cond.start
+						if b, ok := constBool(cond); ok && len(c.child) == 2 {
+							// Condition is known at compile time, bypass test.
+							switch {
+							case b:
+								c.start = body.start
+							case i == l-1:
+								c.start = n
+							default:
+								c.start = clauses[i+1].start
+							}
+						}
 					} else {
 						c.start = body.start
 					}
@@ -2796,6 +2807,23 @@ func logicalConst(n *node) bool {
 		n.rval = reflect.ValueOf(b0 || b1)
 	}
 	return true
+}
+
+// constBool returns the value of a boolean constant node, and false if n is not one.
+func constBool(n *node) (b, ok bool) {
+	if !n.rval.IsValid() {
+		return false, false
+	}
+	if c := vConstantValue(n.rval); c != nil {
+		if c.Kind() != constant.Bool {
+			return false, false
+		}
+		return constant.BoolVal(c), true
+	}
+	if n.rval.Kind() == reflect.Bool {
+		return n.rval.Bool(), true
+	}
+	return false, false
 }
 
 // setFnext sets the cond fnext field to next, propagates it for parenthesis blocks
